@@ -11,7 +11,9 @@
   connection and the execution path.
 
   ONE machine with a record of switches: `Switches.fixed` (all off) is the prescribed behaviour, the
-  switches reproduce the places where /repo deviates (src/network/server.rs, src/storage/commands/executor.rs):
+  switches reproduce the places where /repo deviated (src/network/server.rs, src/storage/commands/executor.rs) until
+  commits b74cb7f, 0c66cae and 2147747 repaired them; they stay in the model so that the translator can turn one on
+  again if the source regresses (Proofs/DbsCode.lean), and the witness lemmas of Props/C18.lean speak about them:
 
   * `evalshaDb0`       — the `EVALSHA` arm calls `handle_evalsha_command(parts)` without `db`, which ends in
                          `handle_eval` = `handle_eval_with_db(.., 0)`: the script runs on database 0;
@@ -185,7 +187,7 @@ def doBpop (q : Quirks) (st : State) (c now : Nat) (inExec left : Bool) (args : 
   match r.2 with
   | some f => (r.1, some f)
   | none =>
-    if inExec then (r.1, some .nullArray)      -- NOT covered (DESIGN row 29, C07/C13): the generators never queue a blocking pop that blocks
+    if inExec then (r.1, some .nullArray)      -- inside EXEC a blocking pop never blocks: fast path, else a null array (since bb515cb)
     else ({ updConn r.1 c (fun x => { x with blocked := true }) with
               waiting := r.1.waiting ++ [{ conn := c, db := (r.1.conns c).db, keys := args.dropLast, left := left }] }, none)
 
